@@ -9,4 +9,5 @@ def check(run, replay=None):
                 "built and corrupted by the harness) / inner data absent / malformed JSON / JSON of the wrong type, for data types u32, "
                 "String and a struct; observation = echoed data parameter or error class and whether the handler's log moved; L1: which "
                 "extraction block each success arm carries; non-trivial = distinct (program, reply)")
-    return replyprops.check(run, "C09", "Props/C09", THEOREMS, replay)
+    return replyprops.check(run, "C09", "Props/C09", THEOREMS, replay,
+                            translated=("Props/C09T", ["c09_translated_raw_modes", "c09_translated_typed_modes", "c09_translated_instantiate_modes"]))
